@@ -38,7 +38,7 @@ UNPROVED = [
     'the biweight location inside bivar is the iterative estimate of Model/Descriptives.v (C19); C17_defs states the midvariance formula about that location',
     'the guard `bootstraps <= 2/alpha` compares with the FLOAT 2/alpha: the model takes that float (q2a) as input; C17_ci_bootstraps holds for any q2a, C17_source_n_boot for the exact quotient; cases where the float quotient is an integer are counted float_ambiguous when the exact one is not',
     'segments given WITHOUT a log2 column (residuals against each range\'s median) are outside the model (a segment row always carries log2)',
-    'function-body translator: np.sqrt / norm.cdf enter as expression-keyed opaque inputs, the bootstraps guard (logging call in its body), k ** (-1/4) and the list comprehension of _smooth_samples_by_weight are not translatable -- tied by genspec fingerprints and the correspondence only',
+    'function-body translator: norm.cdf and k ** (-1/4) enter as expression-keyed opaque inputs; translated from the source (tools/fnspecs/segmetrics.py, segmetrics_e2.py): the bootstraps guard, calc_intervals\' loop, the interval columns, do_segmetrics\' location / spread loops with the stat_funcs table, confidence_interval_bootstrap from k = len(values) on (k < 2, percentile selection), the smoothing comprehension per element, the bintest row stores / hit mask / BH arithmetic; NOT translated -- tied by genspec fingerprints and the correspondence only: the generator expression of `deviations`, the seeded resampling (np.random.*, np.take, np.average), the argsorts and running minimum of p_adjust_bh',
     'float rounding: theorems are about exact rational arithmetic; code and model are compared at 1e-9 (decisions closer than 1e-7 to a boundary are counted float_ambiguous)',
 ]
 
